@@ -156,6 +156,16 @@ func normalize(t *Term) *Term {
 		}
 	case "field":
 		return projectField(t.Args[0], t.S)
+	case "index":
+		// element of a literal / forwarded array value at a constant index
+		if len(t.Args) == 2 && t.Args[1].Op == "const" && t.Args[1].S != "*" {
+			switch t.Args[0].Op {
+			case "update", "arr", "zero":
+				if _, err := strconv.Atoi(t.Args[1].S); err == nil {
+					return projectIndex(t.Args[0], t.Args[1].S)
+				}
+			}
+		}
 	case "load":
 		// load(field(p,f)) stays; nothing to do
 	case "append":
@@ -210,10 +220,39 @@ func projectField(base *Term, f string) *Term {
 	return &Term{Op: "field", S: f, Args: []*Term{base}}
 }
 
+// projectIndex: element n (a constant) of an array / literal value term.
+func projectIndex(base *Term, n string) *Term {
+	switch base.Op {
+	case "update":
+		p := strings.Split(base.S, "/")
+		switch {
+		case p[0] == "["+n+"]":
+			if len(p) == 1 {
+				return base.Args[1]
+			}
+			inner := projectIndex(base.Args[0], n)
+			return normalize(&Term{Op: "update", S: strings.Join(p[1:], "/"), Args: []*Term{inner, base.Args[1]}})
+		case strings.HasPrefix(p[0], "[") && p[0] != "[*]":
+			return projectIndex(base.Args[0], n)
+		}
+	case "arr":
+		if i, err := strconv.Atoi(n); err == nil && i >= 0 && i < len(base.Args) {
+			return base.Args[i]
+		}
+	case "zero":
+		return T("zero", "")
+	}
+	return &Term{Op: "index", Args: []*Term{base, T("const", n)}}
+}
+
 func projectPath(base *Term, path []string) *Term {
 	for _, p := range path {
 		if strings.HasPrefix(p, "[") {
-			base = &Term{Op: "index", Args: []*Term{base, T("const", strings.Trim(p, "[]"))}}
+			if p == "[*]" {
+				base = &Term{Op: "index", Args: []*Term{base, T("const", "*")}}
+			} else {
+				base = projectIndex(base, strings.Trim(p, "[]"))
+			}
 			continue
 		}
 		base = projectField(base, p)
@@ -384,7 +423,7 @@ func (e *termEngine) compute(v ssa.Value) *Term {
 	case *ssa.IndexAddr:
 		return &Term{Op: "index", Args: []*Term{e.of(v.X), e.of(v.Index)}}
 	case *ssa.Index:
-		return &Term{Op: "index", Args: []*Term{e.of(v.X), e.of(v.Index)}}
+		return normalize(&Term{Op: "index", Args: []*Term{e.of(v.X), e.of(v.Index)}})
 	case *ssa.Lookup:
 		s := ""
 		if v.CommaOk {
